@@ -71,14 +71,14 @@ def run(model, tier):
         xc = ev.nf(val[id(cst[q])])
         got = ev.nf(val[id(last[q])])
         want = ev.add(xc, ev.mul(ev.add(xp, xc, -1), w))
-        if got is not NAN and want is not NAN and got.key() == want.key():
+        if got is not NAN and want is not NAN and ev.equal(got, want):
             res.discharged += 1
             res.sample({'quantity': q, 'average': src_of(last[q]) + ' = Xc + (Xp - Xc)*2h/dx', 'Xc': xc.key()[:100]})
             continue
         # diagnose
         alt = ev.add(xp, ev.mul(ev.add(xp, xc, -1), w))
         why = 'it is not Xc + (Xp - Xc)*w with Xc the constant-state value and w = 2h/dx'
-        if got is not NAN and got.key() == alt.key():
+        if got is not NAN and ev.equal(got, alt):
             why = 'it is Xp + (Xp - Xc)*w: the average starts from the partial-cell value instead of the constant state and extrapolates beyond it'
         res.add(Finding(PROP, 'C17.convex-average', fi.module.relpath, fi.qualname, "transition cell: '%s'" % q,
                         "Mader transition cell: the value returned for '%s' is not a convex combination of the partial-cell "
